@@ -32,17 +32,23 @@ inductive Raw where
 deriving Repr, Inhabited
 
 abbrev Comments := Option (List String)
-abbrev Meta := Option (List (String × Raw))
 
 mutual
 inductive Val where
-  | node (cls : String) (ty : Option Val) (comments : Comments) (mta : Meta) (args : List Arg)
+  | node (cls : String) (ty : Option Val) (comments : Comments) (mta : Option (List MetaE)) (args : List Arg)
   | dtype (s : String)
   | raw (r : Raw)
 inductive Arg where
   | one (k : String) (v : Val)
   | many (k : String) (vs : List Val)
+/-- one entry of `node._meta` (a str-keyed dict): a raw value, or an Expression (annotate_types stores a DataType
+    under "query_type"; `dump` writes it as `{"__expr__": dump(v)}`) -/
+inductive MetaE where
+  | raw (k : String) (r : Raw)
+  | expr (k : String) (v : Val)
 end
+
+abbrev Meta := Option (List MetaE)
 
 instance : Inhabited Val := ⟨.raw .null⟩
 
@@ -58,6 +64,15 @@ def Val.isObj : Val → Bool
   | .node .. => true
   | .dtype _ => true
   | .raw _ => false
+
+/-- an Expression (what `isinstance(v, exp.Expr)` accepts) -/
+def Val.isNode : Val → Bool
+  | .node .. => true
+  | _ => false
+
+def MetaE.key : MetaE → String
+  | .raw k _ => k
+  | .expr k _ => k
 
 def Arg.key : Arg → String
   | .one k _ => k
@@ -93,12 +108,21 @@ end
 /- total size including type annotations (fuel of the dump loop) -/
 mutual
 def Val.size : Val → Nat
-  | .node _ ty _ _ args => 1 + sizeOpt ty + sizeArgs args
+  | .node _ ty _ m args => 1 + sizeOpt ty + sizeMeta m + sizeArgs args
   | .dtype _ => 1
   | .raw _ => 1
 def sizeOpt : Option Val → Nat
   | none => 0
   | some v => v.size
+def sizeMeta : Option (List MetaE) → Nat
+  | none => 0
+  | some l => sizeMetaL l
+def sizeMetaL : List MetaE → Nat
+  | [] => 0
+  | e :: es => e.size + sizeMetaL es
+def MetaE.size : MetaE → Nat
+  | .raw _ _ => 0
+  | .expr _ v => v.size
 def sizeArgs : List Arg → Nat
   | [] => 0
   | a :: as => a.size + sizeArgs as
@@ -114,12 +138,21 @@ end
    `None` (neither is observable through `==`, `.sql()`, `.type`, `.comments or []`, `.meta`) -/
 mutual
 def Val.norm : Val → Val
-  | .node cls ty c m args => .node cls (normOpt ty) (normC c) m (normArgs args)
+  | .node cls ty c m args => .node cls (normOpt ty) (normC c) (normMeta m) (normArgs args)
   | .dtype s => .dtype s
   | .raw r => .raw r
 def normOpt : Option Val → Option Val
   | none => none
   | some v => some v.norm
+def normMeta : Option (List MetaE) → Option (List MetaE)
+  | none => none
+  | some l => some (normMetaL l)
+def normMetaL : List MetaE → List MetaE
+  | [] => []
+  | e :: es => e.norm :: normMetaL es
+def MetaE.norm : MetaE → MetaE
+  | .raw k r => .raw k r
+  | .expr k v => .expr k v.norm
 def normArgs : List Arg → List Arg
   | [] => []
   | a :: as => if a.dropped then normArgs as else a.norm :: normArgs as
@@ -138,12 +171,21 @@ def keysOf : List Arg → List String
 /- well-formed trees: what a Python object graph of Expressions always satisfies -/
 mutual
 def Val.WF : Val → Prop
-  | .node cls ty _ _ args => cls ≠ dataTypeCls ∧ wfOpt ty ∧ (keysOf args).Nodup ∧ wfArgs args
+  | .node cls ty _ m args => cls ≠ dataTypeCls ∧ wfOpt ty ∧ wfMeta m ∧ (keysOf args).Nodup ∧ wfArgs args
   | .dtype _ => True
   | .raw _ => True
 def wfOpt : Option Val → Prop
   | none => True
   | some v => v.isObj = true ∧ v.WF
+def wfMeta : Option (List MetaE) → Prop
+  | none => True
+  | some l => wfMetaL l
+def wfMetaL : List MetaE → Prop
+  | [] => True
+  | e :: es => e.WF ∧ wfMetaL es
+def MetaE.WF : MetaE → Prop
+  | .raw _ _ => True
+  | .expr _ v => v.isNode = true ∧ v.WF
 def wfArgs : List Arg → Prop
   | [] => True
   | a :: as => a.WF ∧ wfArgs as
@@ -157,10 +199,18 @@ end
 
 /-! ## payloads -/
 
-/-- one dict of the dumped list. `isArr = false` ⇔ key "a" absent; `value = some .null` ⇔ `"v": None`. -/
+-- one dict of the dumped list. `isArr = false` ⇔ key "a" absent; `value = some .null` ⇔ `"v": None`.
+mutual
 inductive Payload where
   | mk (index : Option Nat) (key : Option String) (isArr : Bool) (cls : Option String)
-       (ty : Option (List Payload)) (comments : Comments) (mta : Meta) (value : Option Raw)
+       (ty : Option (List Payload)) (comments : Comments) (mta : Option (List PMeta)) (value : Option Raw)
+/-- one entry of the payload's META dict: the value verbatim, or `{"__expr__": [payloads]}` -/
+inductive PMeta where
+  | raw (k : String) (r : Raw)
+  | expr (k : String) (ps : List Payload)
+end
+
+abbrev PMetas := Option (List PMeta)
 
 def pIndex : Payload → Option Nat
   | .mk i _ _ _ _ _ _ _ => i
@@ -188,7 +238,7 @@ def eArr : Option Edge → Bool
   | none => false
   | some e => e.isArr
 
-def nodeP (e : Option Edge) (cls : String) (ty : Option (List Payload)) (c : Comments) (m : Meta) : Payload :=
+def nodeP (e : Option Edge) (cls : String) (ty : Option (List Payload)) (c : Comments) (m : PMetas) : Payload :=
   .mk (eIndex e) (eKey e) (eArr e) (some cls) ty (normC c) m none
 def dtypeP (e : Option Edge) (s : String) : Payload :=
   .mk (eIndex e) (eKey e) (eArr e) (some dataTypeCls) none none none (some (.str s))
@@ -210,14 +260,20 @@ def edgesArgs (i : Nat) : List Arg → List Item
   | [] => []
   | a :: as => edgesArg i a ++ edgesArgs i as
 
-/-- `serde.dump`: `while stack: pop; emit payload; push children; i += 1`. The type annotation is dumped by a
-    recursive call (`dump(node.type)`), here with the remaining fuel. -/
+/-- `{k: {META_EXPR: dump(v)} if isinstance(v, exp.Expr) else v for k, v in node._meta.items()}`, `f` = `dump` -/
+def dumpMetaE (f : Val → List Payload) : MetaE → PMeta
+  | .raw k r => .raw k r
+  | .expr k v => .expr k (f v)
+
+/-- `serde.dump`: `while stack: pop; emit payload; push children; i += 1`. The type annotation and Expression-valued
+    meta entries are dumped by recursive calls (`dump(node.type)`, `dump(v)`), here with the remaining fuel. -/
 def dumpLoop : Nat → List Item → Nat → List Payload → List Payload
   | 0, _, _, out => out
   | _, [], _, out => out
   | fuel + 1, (.node cls ty c m args, e) :: st, i, out =>
     dumpLoop fuel (edgesArgs i args ++ st) (i + 1)
-      (out ++ [nodeP e cls (ty.map fun t => dumpLoop fuel [(t, none)] 0 []) c m])
+      (out ++ [nodeP e cls (ty.map fun t => dumpLoop fuel [(t, none)] 0 []) c
+        (m.map fun l => l.map (dumpMetaE fun v => dumpLoop fuel [(v, none)] 0 []))])
   | fuel + 1, (.dtype s, e) :: st, i, out => dumpLoop fuel st (i + 1) (out ++ [dtypeP e s])
   | fuel + 1, (.raw r, e) :: st, i, out => dumpLoop fuel st (i + 1) (out ++ [rawP e r])
 
@@ -226,12 +282,21 @@ def dump (t : Val) : List Payload := dumpLoop t.size [(t, none)] 0 []
 /- recursive specification: pre-order; the node numbered `i` is its children's parent index -/
 mutual
 def flat : Val → Option Edge → Nat → List Payload
-  | .node cls ty c m args, e, i => nodeP e cls (flatTy ty) c m :: flatArgs args i (i + 1)
+  | .node cls ty c m args, e, i => nodeP e cls (flatTy ty) c (flatMeta m) :: flatArgs args i (i + 1)
   | .dtype s, e, _ => [dtypeP e s]
   | .raw r, e, _ => [rawP e r]
 def flatTy : Option Val → Option (List Payload)
   | none => none
   | some t => some (flat t none 0)
+def flatMeta : Option (List MetaE) → Option (List PMeta)
+  | none => none
+  | some l => some (flatMetaL l)
+def flatMetaL : List MetaE → List PMeta
+  | [] => []
+  | e :: es => e.flat :: flatMetaL es
+def MetaE.flat : MetaE → PMeta
+  | .raw k r => .raw k r
+  | .expr k v => .expr k (flat v none 0)
 def flatArgs : List Arg → Nat → Nat → List Payload
   | [], _, _ => []
   | a :: as, p, i => flatArg a p i ++ flatArgs as p (i + a.cnt)
@@ -259,8 +324,10 @@ deriving Repr, DecidableEq
 
 abbrev Slots := List (String × Slot)
 
+/-- an object of the heap. `hash` is the `_hash` cache of an Expression (`None` = not cached). -/
 inductive Cell where
   | node (cls : String) (ty : Option Val) (comments : Comments) (mta : Meta) (args : Slots) (link : Option Link)
+         (hash : Option Nat)
   | dtype (s : String)
   | raw (r : Raw)
 
@@ -288,7 +355,7 @@ def appendRef (args : Slots) (k : String) (j : Nat) : Slots × Nat :=
   | _ => (setKey k (.many [j]) args, 0)
 
 def Cell.withLink : Cell → Link → Cell
-  | .node cls ty c m args _, l => .node cls ty c m args (some l)
+  | .node cls ty c m args _ h, l => .node cls ty c m args (some l) h
   | c, _ => c
 
 def Cell.isRawNull : Cell → Bool
@@ -308,7 +375,7 @@ def reifySlots (f : Nat → Option Val) : Slots → Option (List Arg)
   | (k, s) :: rest => (reifySlot f k s).bind fun a => (reifySlots f rest).bind fun as => some (a :: as)
 
 def reifyCell (f : Nat → Option Val) : Cell → Option Val
-  | .node cls ty c m args _ => (reifySlots f args).map (Val.node cls ty c m)
+  | .node cls ty c m args _ _ => (reifySlots f args).map (Val.node cls ty c m)
   | .dtype s => some (.dtype s)
   | .raw r => some (.raw r)
 
@@ -327,15 +394,39 @@ def linkArgs (args : Slots) (k : String) (isArr : Bool) (j : Nat) (childIsNull :
   else if childIsNull then (eraseKey k args, none)     -- `set(k, None)` pops the key
   else (setKey k (.one j) args, none)
 
+/-- the head of `set` / `append`: `while node and node._hash is not None: node._hash = None; node = node.parent` -/
+def clearUp (A : List Cell) : Nat → Nat → List Cell
+  | 0, _ => A
+  | fuel + 1, idx => match A[idx]? with
+    | some (.node cls ty c m args l (some _)) =>
+      match l with
+      | some lk => clearUp (A.set idx (.node cls ty c m args l none)) fuel lk.parent
+      | none => A.set idx (.node cls ty c m args l none)
+    | _ => A
+
 /-- one iteration of the `for payload in tail` loop, given the freshly built node -/
 def attach (A : List Cell) (cell : Cell) (idx : Nat) (k : String) (isArr : Bool) : Option (List Cell) :=
   if idx < A.length then          -- (`nodes[len(nodes)-1]` = the node itself would build a cycle: not modelled)
-    match A[idx]? with
-    | some (.node cls ty c m args l) =>
+    let B := clearUp A A.length idx
+    match B[idx]? with
+    | some (.node cls ty c m args l h) =>
       let r := linkArgs args k isArr A.length cell.isRawNull
-      some (A.set idx (.node cls ty c m r.1 l) ++ [cell.withLink ⟨idx, k, r.2⟩])
+      some (B.set idx (.node cls ty c m r.1 l h) ++ [cell.withLink ⟨idx, k, r.2⟩])
     | _ => none                    -- `.append` / `.set` on a str / int / DType: AttributeError
   else none
+
+/-- `_load(payload)` given `payload[CLASS]` and the results of `load(payload.get(TYPE))` and of decoding
+    `payload.get(META)` (only looked at for a non-DType class): a DType member, or an empty instance of the class
+    with `_type`, `comments`, `_meta` filled in -/
+def mkObj (cn : String) (tyv : Option (Option Val)) (c : Comments) (mv : Option Meta) (value : Option Raw) :
+    Option Cell :=
+  if cn = dataTypeCls then
+    match value with
+    | some (.str s) => some (.dtype s)
+    | _ => none
+  else match tyv, mv with
+    | some t, some m => some (.node cn t c m [] none none)    -- a fresh instance: no parent, no cached hash
+    | _, _ => none
 
 /- `load` / `_load`.  `loadTy` is `load(payload.get(TYPE))`: `none` = raises, `some none` = returns `None`. -/
 mutual
@@ -351,26 +442,32 @@ def load : List Payload → Option (Option Val)
 def loadTy : Option (List Payload) → Option (Option Val)
   | none => some none
   | some ps => load ps
-/-- `_load(payload)` given `payload[CLASS]`: a DType member, or an empty instance of the class with `_type`,
-    `comments`, `_meta` filled in -/
-def mkObj (cn : String) : Option (List Payload) → Comments → Meta → Option Raw → Option Cell
-  | ty, c, m, value =>
-    if cn = dataTypeCls then
-      match value with
-      | some (.str s) => some (.dtype s)
-      | _ => none
-    else match loadTy ty with
-      | none => none
-      | some tyv => some (.node cn tyv c m [] none)
+/-- `{k: load(v[META_EXPR]) if isinstance(v, dict) and META_EXPR in v else v for k, v in meta.items()}` -/
+def loadMeta : Option (List PMeta) → Option (Option (List MetaE))
+  | none => some none
+  | some l => match loadMetaL l with
+    | none => none
+    | some r => some (some r)
+def loadMetaL : List PMeta → Option (List MetaE)
+  | [] => some []
+  | e :: es => match loadMetaE e, loadMetaL es with
+    | some x, some xs => some (x :: xs)
+    | _, _ => none
+def loadMetaE : PMeta → Option MetaE
+  | .raw k r => some (.raw k r)
+  | .expr k ps => match load ps with
+    | none => none
+    | some none => some (.raw k .null)          -- `load([])` is `None`
+    | some (some v) => some (.expr k v)
 /-- `_load(payload)` for the first payload: needs CLASS -/
 def mkRoot : Payload → Option Cell
   | .mk _ _ _ none _ _ _ _ => none
-  | .mk _ _ _ (some cn) ty c m value => mkObj cn ty c m value
+  | .mk _ _ _ (some cn) ty c m value => mkObj cn (loadTy ty) c (loadMeta m) value
 /-- `_load(payload) if CLASS in payload else payload[VALUE]` -/
 def mkCell : Payload → Option Cell
   | .mk _ _ _ none _ _ _ none => none
   | .mk _ _ _ none _ _ _ (some r) => some (.raw r)
-  | .mk _ _ _ (some cn) ty c m value => mkObj cn ty c m value
+  | .mk _ _ _ (some cn) ty c m value => mkObj cn (loadTy ty) c (loadMeta m) value
 def loadList : List Payload → List Cell → Option (List Cell)
   | [], A => some A
   | p :: ps, A => match mkCell p with
@@ -388,5 +485,222 @@ def loadArena : List Payload → Option (List Cell)
   | p :: tail => match mkRoot p with
     | none => none
     | some root => loadList tail [root]
+
+
+/-! ## `Expression.__deepcopy__` (sqlglot/expressions/core.py): iterative copy through `set` / `append`
+
+  The source is a tree (`Val`, whose `ty` is read as `_type` here), `hashOf` says which source nodes have a cached
+  `_hash`; the copy is built in an arena.  Stack entries are `(source node, index of its still-empty copy)`; the
+  stack top is the list head, so "push children in order, pop the last" is `pushed.reverse ++ rest`. -/
+
+/-- `cls()`: no args, no type / comments / meta, no parent, no cached hash -/
+def emptyCell (cls : String) : Cell := .node cls none none none [] none none
+
+def Val.toCell : Val → Cell
+  | .node cls _ _ _ _ => emptyCell cls
+  | .dtype s => .dtype s
+  | .raw r => .raw r
+
+abbrev CItem := Val × Nat
+
+/-- `copy.comments = deepcopy(node.comments)`, `copy._type = deepcopy(node._type)`, `copy._meta = deepcopy(node._meta)`,
+    `copy._hash = node._hash` (each only `if … is not None`; a fresh instance holds `None` there) -/
+def fillCell (A : List Cell) (j : Nat) (c : Comments) (ty : Option Val) (m : Meta) (h : Option Nat) :
+    Option (List Cell) :=
+  match A[j]? with
+  | some (.node cls _ _ _ args l _) => some (A.set j (.node cls ty c m args l h))
+  | _ => none
+
+/-- `copy.args[k] = value` for a non-Expression, non-list value (no `set`: no hash invalidation, no parent link);
+    `s` is the slot written, `cells` the freshly allocated scalar cell(s) -/
+def assignArg (A : List Cell) (j : Nat) (k : String) (s : Slot) (cells : List Cell) : Option (List Cell) :=
+  match A[j]? with
+  | some (.node cls ty c m args l h) => some (A.set j (.node cls ty c m (setKey k s args) l h) ++ cells)
+  | _ => none
+
+/-- the elements of a list-valued arg: `stack.append((v, v.__class__())); copy.append(k, new)` for an Expression,
+    `copy.append(k, v)` otherwise -/
+abbrev Attach := List Cell → Cell → Nat → String → Bool → Option (List Cell)
+
+def copyVals (att : Attach) (j : Nat) (k : String) :
+    List Val → List Cell → List CItem → Option (List Cell × List CItem)
+  | [], A, pushed => some (A, pushed)
+  | v :: vs, A, pushed =>
+    match att A v.toCell j k true with
+    | none => none
+    | some A' => copyVals att j k vs A' (if v.isNode then pushed ++ [(v, A.length)] else pushed)
+
+/-- `for k, vs in node.args.items(): …` -/
+def copyArgs (att : Attach) (j : Nat) : List Arg → List Cell → List CItem → Option (List Cell × List CItem)
+  | [], A, pushed => some (A, pushed)
+  | .one k v :: rest, A, pushed =>
+    if v.isNode then
+      match att A v.toCell j k false with             -- `copy.set(k, vs.__class__())`
+      | none => none
+      | some A' => copyArgs att j rest A' (pushed ++ [(v, A.length)])
+    else
+      match assignArg A j k (.one A.length) [v.toCell] with   -- `copy.args[k] = vs` (also for `None`)
+      | none => none
+      | some A' => copyArgs att j rest A' pushed
+  | .many k vs :: rest, A, pushed =>
+    match assignArg A j k (.many []) [] with           -- `copy.args[k] = []`
+    | none => none
+    | some A0 =>
+      match copyVals att j k vs A0 pushed with
+      | none => none
+      | some (A1, p1) => copyArgs att j rest A1 p1
+
+def copyTyWith (cp : Val → Option Val) : Option Val → Option (Option Val)
+  | none => some none
+  | some t => (cp t).map some
+
+def copyMetaLWith (cp : Val → Option Val) : List MetaE → Option (List MetaE)
+  | [] => some []
+  | .raw k r :: es => (copyMetaLWith cp es).map (MetaE.raw k r :: ·)
+  | .expr k v :: es => (cp v).bind fun v' => (copyMetaLWith cp es).map (MetaE.expr k v' :: ·)
+
+def copyMetaWith (cp : Val → Option Val) : Meta → Option Meta
+  | none => some none
+  | some l => (copyMetaLWith cp l).map some
+
+/-- the `while stack:` loop of `__deepcopy__`; `deepcopy(node._type)` and Expression values inside `deepcopy(node._meta)`
+    re-enter `__deepcopy__` (here with the remaining fuel; the nested result is read back as a value). `none` = a Python
+    exception or fuel exhausted (never for fuel ≥ size, see `copy_eq`). -/
+def copyLoopWith (att : Attach) (hashOf : Val → Option Nat) : Nat → List CItem → List Cell → Option (List Cell)
+  | _, [], A => some A
+  | 0, _ :: _, _ => none
+  | fuel + 1, (v, j) :: st, A =>
+    match v with
+    | .node _ ty c m args =>
+      let cp : Val → Option Val := fun t =>
+        if t.isNode then
+          (copyLoopWith att hashOf fuel [(t, 0)] [t.toCell]).bind fun B => reify B t.size 0
+        else some t
+      match copyTyWith cp ty, copyMetaWith cp m with
+      | some ty', some m' =>
+        match fillCell A j c ty' m' (hashOf v) with
+        | none => none
+        | some A1 =>
+          match copyArgs att j args A1 [] with
+          | none => none
+          | some (A2, pushed) => copyLoopWith att hashOf fuel (pushed.reverse ++ st) A2
+      | _, _ => none
+    | _ => none
+
+/-- the real loop: `set` / `append` are `attach` (with the hash invalidation walk) -/
+def copyLoop := copyLoopWith attach
+
+/-- `root = self.__class__(); stack = [(self, root)]; …; return root` -/
+def copyArena (hashOf : Val → Option Nat) (t : Val) : Option (List Cell) :=
+  copyLoop hashOf t.size [(t, 0)] [t.toCell]
+
+def copy (hashOf : Val → Option Nat) (t : Val) : Option Val :=
+  (copyArena hashOf t).bind fun B => reify B t.size 0
+
+/-! ## pickling: `Expression.__reduce__` -/
+
+/-- what `__reduce__` hands to pickle: the callable is `serde.load`, its single argument is `dump(self)`; `state` is
+    the optional third component (slot state `{"_hash": h}`), which pickle would `setattr` on the rebuilt root.
+    The source returns a 2-tuple, i.e. `withState = false` (re-checked by the translator on every run). -/
+structure Reduced where
+  payload : List Payload
+  state : Option (Option Nat)
+
+def reduce (withState : Bool) (t : Val) (cachedHash : Option Nat) : Reduced :=
+  ⟨dump t, if withState then some cachedHash else none⟩
+
+def Cell.setHash : Cell → Option Nat → Cell
+  | .node cls ty c m args l _, h => .node cls ty c m args l h
+  | c, _ => c
+
+/-- `pickle.loads`: call `load(payload)`, then apply the state to the returned object (cell 0) -/
+def unpickleArena (r : Reduced) : Option (List Cell) :=
+  match loadArena r.payload, r.state with
+  | none, _ => none
+  | some A, none => some A
+  | some [], some _ => some []
+  | some (root :: rest), some h => some (root.setHash h :: rest)
+
+def unpickle (r : Reduced) : Option (Option Val) := load r.payload     -- (state never changes what is read back)
+
+/-! ## JSON-serialisability of the dump -/
+
+/-- Python values as `json.dumps` sees them; `opaque` stands for anything it refuses (an Expression, a tuple key, a
+    set, an enum member …) -/
+inductive Py where
+  | none
+  | bool (b : Bool)
+  | int (i : Int)
+  | str (s : String)
+  | list (l : List Py)
+  | dict (l : List (Py × Py))
+  | opaque (what : String)
+
+/-- the values `json.dumps` accepts and `json.loads` gives back unchanged: scalars, lists of such, dicts with `str`
+    keys and such values -/
+inductive JsonValue : Py → Prop where
+  | none : JsonValue .none
+  | bool (b : Bool) : JsonValue (.bool b)
+  | int (i : Int) : JsonValue (.int i)
+  | str (s : String) : JsonValue (.str s)
+  | list (l : List Py) : (∀ x ∈ l, JsonValue x) → JsonValue (.list l)
+  | dict (l : List (Py × Py)) : (∀ kv ∈ l, ∃ s, kv.1 = .str s) → (∀ kv ∈ l, JsonValue kv.2) → JsonValue (.dict l)
+
+/-- the key constants of serde.py (instantiated from Generated/C12.lean) -/
+structure Keys where
+  index : String
+  key : String
+  isArr : String
+  cls : String
+  ty : String
+  comments : String
+  mta : String
+  value : String
+  metaExpr : String
+
+mutual
+def Raw.toPy : Raw → Py
+  | .null => .none
+  | .bool b => .bool b
+  | .int i => .int i
+  | .str s => .str s
+  | .arr l => .list (rawsToPy l)
+def rawsToPy : List Raw → List Py
+  | [] => []
+  | r :: rs => r.toPy :: rawsToPy rs
+end
+
+def optField (k : String) : Option Py → List (Py × Py)
+  | none => []
+  | some v => [(.str k, v)]
+
+/- the Python object `dump` returns for one payload: a dict holding exactly the present fields -/
+mutual
+def Payload.toPy (K : Keys) : Payload → Py
+  | .mk i k a cls ty c m v => .dict (
+      optField K.index (i.map fun n => Py.int n) ++
+      optField K.key (k.map Py.str) ++
+      (if a then [(Py.str K.isArr, Py.bool true)] else []) ++
+      optField K.cls (cls.map Py.str) ++
+      optTy K ty ++
+      optField K.comments (c.map fun l => Py.list (l.map Py.str)) ++
+      optMeta K m ++
+      optField K.value (v.map Raw.toPy))
+def optTy (K : Keys) : Option (List Payload) → List (Py × Py)
+  | none => []
+  | some ps => [(.str K.ty, .list (payloadsToPy K ps))]
+def payloadsToPy (K : Keys) : List Payload → List Py
+  | [] => []
+  | p :: ps => p.toPy K :: payloadsToPy K ps
+def optMeta (K : Keys) : Option (List PMeta) → List (Py × Py)
+  | none => []
+  | some l => [(.str K.mta, .dict (pmetasToPy K l))]
+def pmetasToPy (K : Keys) : List PMeta → List (Py × Py)
+  | [] => []
+  | e :: es => e.toPy K :: pmetasToPy K es
+def PMeta.toPy (K : Keys) : PMeta → Py × Py
+  | .raw k r => (.str k, r.toPy)
+  | .expr k ps => (.str k, .dict [(.str K.metaExpr, .list (payloadsToPy K ps))])
+end
 
 end SqlglotModel.Serde
